@@ -43,6 +43,7 @@ import (
 
 	"github.com/olive-io/bpmn/schema"
 	bpmn "github.com/olive-io/bpmn/v2"
+	"github.com/olive-io/bpmn/v2/pkg/clock"
 	"github.com/olive-io/bpmn/v2/pkg/id"
 	"github.com/olive-io/bpmn/v2/pkg/tracing"
 
@@ -952,9 +953,86 @@ func c20(out *rec.Out, rng *rec.Rng, tier string, stats map[string]int) {
 		rs = 3000
 	}
 	c20snapConc(out, rs, stats)
+	for _, mode := range []string{"mock", "host"} {
+		c20ctxClock(out, mode, "restore", 6, stats)
+		c20ctxClock(out, mode, "long", 1<<16+5000, stats)
+	}
 	// 6. LAST (it uses up the process-wide sno partition pool): one long-lived generator and, one after the other, a
 	// little more than 2^16 short-lived ones (one generator per process instance in a long-running program)
 	c20manyGens(out, 1<<16+16, stats)
+}
+
+// c20ctxClock: generators created and restored with a context that CARRIES A CLOCK (clock.ToContext — what a run driven
+// by a mock clock, or a host that passes its clock along, hands to everything it creates). mode "mock": a mock clock that
+// is never advanced; "host": the host clock. Two shapes: `restore` — draw 5, snapshot, restore with the same context, 5
+// draws from the restored generator, which then takes the original's place (n rounds); `long` — one generator, n draws (more than 2^16, the size
+// of a sequence pool) while the clock stands still. No id may show up twice.
+func c20ctxClock(out *rec.Out, mode, shape string, n int, stats map[string]int) {
+	out.Begin("c20", "ctx_clock", mode, shape, n)
+	defer out.End()
+	env := c20newEnv()
+	defer env.close()
+	dups, first, total := 0, "-", 0
+	c20guard(out, func() {
+		var clk clock.IClock
+		if mode == "mock" {
+			clk = clock.NewMockAt(time.Date(2024, 5, 6, 7, 8, 9, 0, time.UTC))
+		} else {
+			h, err := clock.Host(env.ctx)
+			if err != nil {
+				out.Line("generr host_clock")
+				return
+			}
+			clk = h
+		}
+		ctx := clock.ToContext(env.ctx, clk)
+		g, err := id.GetSno().NewIdGenerator(ctx, env.tracer)
+		if err != nil {
+			out.Line("generr %s", strings.ReplaceAll(err.Error(), " ", "_"))
+			return
+		}
+		seen := map[string]bool{}
+		draw := func(x id.IGenerator) {
+			v := x.New().String()
+			if seen[v] {
+				dups++
+				if first == "-" {
+					first = v
+				}
+			}
+			seen[v] = true
+			total++
+		}
+		if shape == "long" {
+			for i := 0; i < n; i++ {
+				draw(g)
+			}
+			return
+		}
+		for r := 0; r < n; r++ {
+			for i := 0; i < 5; i++ {
+				draw(g)
+			}
+			b, err := g.Snapshot()
+			if err != nil {
+				out.Line("generr snapshot")
+				return
+			}
+			ng, err := id.GetSno().RestoreIdGenerator(ctx, b, env.tracer)
+			if err != nil {
+				out.Line("generr %s", strings.ReplaceAll(err.Error(), " ", "_"))
+				return
+			}
+			// (the original is not used any more: the property is about a generator's EARLIER output and its restored copy)
+			for i := 0; i < 5; i++ {
+				draw(ng)
+			}
+			g = ng
+		}
+	})
+	out.Line("stress ctxclock goroutines 1 each %d gens 1 total %d dups %d first %s", total, total, dups, first)
+	stats["cases"]++
+	stats["ctx_clock_"+mode+"_"+shape]++
 }
 
 // c20manyGens: a long-lived generator stays in use while n short-lived generators are created one after the other, each
